@@ -135,13 +135,15 @@ def run_spec(ctx, name, fault=None, record_args=True):
         np.random.seed(s.np_seed)
     injected = False
     if fault:
+        fp = Failpoint(fault)
         try:
-            with Failpoint(fault):
+            with fp:
                 out = ctx.call(fn, *args, **kwargs)
-        except InjectedFault:       # raised outside ctx.call's frame (should not happen) - treat as abandoned
+        except InjectedFault:
             out = None
-        if out is None or (not out.ok and isinstance(out.exc, InjectedFault)):
-            injected = True
+        # the fault counts as injected whenever it fired - even if pyrepseq swallowed it (bare except) and
+        # surfaced something else, or carried on: such a call was disturbed and its value is not compared.
+        injected = fp.fired_at is not None or out is None
     else:
         out = ctx.call(fn, *args, **kwargs)
     if injected:
@@ -152,10 +154,7 @@ def run_spec(ctx, name, fault=None, record_args=True):
         except Exception as e:
             value = f"post-raised:{type(e).__name__}:{str(e)[:80]}"
     else:
-        if "Injected" in type(out.exc).__name__ or "InjectedFault" in str(out.exc):
-            injected, value = True, "abandoned"
-        else:
-            value = f"raised:{type(out.exc).__name__}"
+        value = f"raised:{type(out.exc).__name__}"
     if record_args:
         after = canon.fp_args(args, kwargs)
         ctx.count("argument_fingerprints_compared", len(after))
